@@ -46,16 +46,23 @@ func (c *stepCtx) stepLegacy(k int, st map[string]interface{}) string {
 			} else {
 				res = `"out":"ok","ret":"0","zero":true`
 			}
-		case "Pretouch", "PretouchOpts", "PretouchValue":
+		case "Pretouch", "PretouchOpts", "PretouchValue", "PretouchStruct", "PretouchOdd":
 			var vt interface{}
 			if d, ok := defs[str(st, "ty", "")]; ok {
-				if call == "PretouchValue" {
+				switch call {
+				case "PretouchValue":
 					vt = reflect.New(d.rt).Interface()
-				} else {
+				case "PretouchStruct":
+					vt = reflect.New(d.rt).Elem().Interface() // the struct itself, by value (may hold slices and maps)
+				default:
 					vt = d.rt
 				}
 			} else {
 				vt = reflect.TypeOf(0)
+			}
+			if call == "PretouchOdd" {
+				// "accepts any type": arguments that are no struct at all
+				vt = []interface{}{[]int32{1, 2}, map[string]int32{"a": 1}, "text", 3.5, nil, &[]string{"x"}, func() {}, make(chan int)}[arg%8]
 			}
 			var err error
 			if ol, ok := st["opts"].([]interface{}); ok && call == "PretouchOpts" {
